@@ -12,6 +12,7 @@ CONSTANTS
   Paths <- PathsMC
   Cat <- CatMC
   Inert <- NestedFlows
+  CleanSkips = {}
   Unseen = {}
   NestedPP = {"path_params/team/np.yaml"}
   NestedFlows = {"flows/team/n.yaml"}
